@@ -167,7 +167,9 @@ class Isa(object):
     CORE = ("ADD", "SUB", "AND", "OR", "XOR", "EOR", "MOV", "LD", "ST", "LDR", "STR", "CMP", "LEA", "INC", "DEC", "NEG", "NOT",
             "ADC", "SBB", "SBC", "RSB", "MUL", "IMUL", "SHL", "SHR", "SAR", "SAL", "ROR", "ROL", "LSL", "LSR", "ASR", "SLL", "SRL", "SRA",
             "PUSH", "POP", "TEST", "TST", "LW", "SW", "LB", "SB", "LH", "LUI", "AUIPC", "SLT", "XCHG", "MVN", "BIC", "CP", "EX",
-            "MOVZX", "MOVSX", "MOVSXD", "SETCC", "CMOVCC", "BSWAP", "XADD", "DIV", "IDIV", "NOP", "ADDI", "ANDI", "ORI", "XORI")
+            "MOVZX", "MOVSX", "MOVSXD", "SETCC", "CMOVCC", "BSWAP", "XADD", "DIV", "IDIV", "NOP", "ADDI", "ANDI", "ORI", "XORI",
+            "BLT", "BGE", "BLTU", "BGEU", "BEQ", "BNE", "SLTI", "SLTIU", "SLTU", "SRAI", "SRLI", "SLLI", "SUBS", "ADDS", "CMN", "JCC", "BCC",
+            "SAR", "SMULL", "UMULL", "MULH", "BRA", "BF", "BT", "J", "JAL", "JALR")
     REGFIELD = re.compile(r"^(r[a-z]?[0-9]?|R[a-zA-Z]?[0-9]?|rs1|rs2|rd|rt|rs|ra|rb|rc|reg|REG|RM|rm|Rdn|Rdm|src|dst|s1|s2|d|a|b|c|n|m|t)$")
 
     def _spec_info(self, mode):
